@@ -11,6 +11,7 @@ package main
 
 import (
 	"go/types"
+	"strings"
 
 	"golang.org/x/tools/go/ssa"
 )
@@ -181,6 +182,21 @@ func init() {
 		}
 		st.row++
 		rt := p.Obj.Typ
+		// reader settings the repository may change: TrimLeadingSpace is modelled, the others must keep their defaults
+		if c, ok := constInt(getPath(p.Obj.V, []int{fieldIndex(rt, "Comma")}).(*Term)); !ok || c != ',' {
+			e.unsupported("csv.Reader with a non-default Comma")
+		}
+		if c, ok := constInt(getPath(p.Obj.V, []int{fieldIndex(rt, "Comment")}).(*Term)); !ok || c != 0 {
+			e.unsupported("csv.Reader with a Comment character")
+		}
+		if c, ok := constInt(getPath(p.Obj.V, []int{fieldIndex(rt, "FieldsPerRecord")}).(*Term)); !ok || c != 0 {
+			e.unsupported("csv.Reader with FieldsPerRecord set")
+		}
+		if getPath(p.Obj.V, []int{fieldIndex(rt, "TrimLeadingSpace")}).(*Term).IsTrue() {
+			for i, c := range cells {
+				cells[i] = e.trimLeading(c.(StrV))
+			}
+		}
 		reuse := getPath(p.Obj.V, []int{fieldIndex(rt, "ReuseRecord")}).(*Term).IsTrue()
 		var rec SliceV
 		if reuse && st.last != nil && st.last.Cap >= len(cells) {
@@ -199,4 +215,22 @@ func init() {
 		}
 		return TupleV{rec, IfaceV{}}
 	}
+}
+
+// trimLeading models csv.Reader.TrimLeadingSpace on one (unquoted) cell.
+func (e *Exec) trimLeading(s StrV) StrV {
+	tf := e.tf
+	if cs, ok := s.Const(); ok {
+		return chStr(tf, strings.TrimLeft(cs, " \t"))
+	}
+	if s.IsCh {
+		cs := s.Chars
+		for len(cs) > 0 && e.decide(tf.Or(tf.Eq(cs[0], tf.Int(' ')), tf.Eq(cs[0], tf.Int('\t')))) {
+			cs = cs[1:]
+		}
+		return StrV{Chars: cs, IsCh: true}
+	}
+	// no fork: the trimmed text is an uninterpreted function of the cell when it starts with a space
+	lead := tf.Or(tf.PrefixOf(tf.Str(" "), s.T), tf.PrefixOf(tf.Str("\t"), s.T))
+	return StrV{T: tf.Ite(lead, tf.UF("trimleading", SStr, s.T), s.T)}
 }
